@@ -132,7 +132,8 @@ class _C15(Spec):
         for (d, a, b) in ((0, 0, 1), (1, 0, 1), (0, 1, 0), (0, 0, 0), (2, 0, 1)):
             for o in ("union", "inter", "diff", "sym"):
                 ops.append("%s:%d:%d:%d" % (o, d, a, b))
-        ops += ["clone:1:0", "clone:0:1", "eq:0:1", "sub:0:1", "sup:0:1", "slice:0", "slice:1", "slice:2", "has:0:i1,sa"]
+        ops += ["clone:1:0", "clone:0:1", "eq:0:1", "sub:0:1", "sup:0:1", "slice:0", "slice:1", "slice:2", "has:0:i1,sa",
+                "has:0:i1,i1", "has:1:sa,sa,sa", "has:0:i1"]
         return ops
 
     def streams(self, tier, rng):
@@ -178,7 +179,8 @@ class _C15(Spec):
                 elif k < 0.75:
                     h.append("%s:%d:%d" % (rng.choice(["sub", "sup", "eq"]), a, b))
                 elif k < 0.80:
-                    h.append("has:%d:%s" % (r, ",".join(rng.sample(univ, rng.randint(1, 3)))))
+                    # several arguments, repeats allowed, possibly more arguments than the set has members
+                    h.append("has:%d:%s" % (r, ",".join(rng.choice(univ[:rng.choice([2, 4, 10])]) for _ in range(rng.randint(1, 5)))))
                 elif k < 0.90:
                     h.append("%s:%d" % (rng.choice(["slice", "iter", "str", "card"]), r))
                 elif k < 0.94:
